@@ -376,7 +376,7 @@ def owner(unit, f):
     if unit == "static":
         if f.kind == "precondition" and f.snippet.startswith("false@"):
             return "C13"
-        if f.fn == "StaticResourceController::is_matching" and f.kind == "postcondition":
+        if f.fn in ("StaticResourceController::is_matching", "StaticResourceController::is_matching_request") and f.kind == "postcondition":
             return ("C09", "C02")
         if "static_status" in f.snippet:
             return ("C09", "C03", "C02")
